@@ -138,6 +138,33 @@ def body_mono(case):
     return {"mono"} | ({"N=0"} if n == 0 else set())
 
 
+
+def _body_options(case):
+    from .c11 import body_options
+
+    return body_options(case)
+
+
+def _options_strategy():
+    from . import c11
+    from . import geomcommon as gc
+
+    return st.fixed_dictionaries(
+        {
+            "kind": st.just("spectra"),
+            "n": st.sampled_from([40, 25]),
+            "pick": st.integers(0, 7),
+            "nopts": st.sampled_from([2, 3]),
+            "rows3": c11.rows3,
+            "rows4": gc.points(4, 8),
+            "cfg": gc.geom_config(),
+            "version": st.just("3"),
+            "spectrum": st.sampled_from([{"id": "monospectrum", "log_nu_energy": 9.25}, {"id": "powerspectrum", "index": 2.0, "lower_bound": 6.0, "upper_bound": 12.0}, {"id": "powerspectrum", "index": 1.0, "lower_bound": 7.0, "upper_bound": 9.0}]),
+            "det": st.just(525.0),
+            "c": st.floats(0.01, 0.99),
+        }
+    )
+
 SUBCHECKS = [
     SubCheck(
         "power_law",
@@ -155,5 +182,14 @@ SUBCHECKS = [
         lambda labels: True,
         {"quick": 200, "thorough": 5000},
         doc="every element equals the configured log-energy",
+    ),
+    SubCheck(
+        "options",
+        _options_strategy(),
+        _body_options,
+        lambda labels: "plot_name" in labels,
+        {"quick": 8, "thorough": 200},
+        doc="results handed back to the caller are identical with and without plotting/storing options (shared with C11/options, restricted to this stage)",
+        shrink=False,
     ),
 ]
